@@ -2,9 +2,11 @@
 // TimeStamp under concurrency).  std::thread only - no rkcommon tasking - so a
 // ThreadSanitizer build is sound.
 //
-// Action Burst{threads, ops, seed, shared, out}: the main thread (t = 0) creates
-// `shared` stamps that nobody changes afterwards; then `threads` threads start
-// together and each performs `ops` operations on its own stamps:
+// Action Burst{threads, ops, seed, shared, sync, out}: the main thread (t = 0)
+// creates `shared` stamps that nobody changes afterwards; then `threads` threads
+// start together (and, with sync > 0, meet again at a barrier every `sync`
+// operations, so that they keep hitting the counter at the same time even on a
+// loaded machine) and each performs `ops` operations on its own stamps:
 //   create / renew                       -> Fresh event with the stamp's value
 //   copy construction / copy assignment
 //   move construction / move assignment  -> Copy event with the value of the
@@ -59,8 +61,27 @@ struct Rng
 
 const int SLOTS = 4;
 
-void worker(int t, long ops, uint64_t seed, const std::vector<TimeStamp *> *shared, std::atomic<int> *ready, std::atomic<bool> *go,
-            std::vector<Ev> *log)
+// all threads meet; built from atomics only (ThreadSanitizer understands it)
+struct Barrier
+{
+  int n;
+  std::atomic<int> arrived{0};
+  std::atomic<int> phase{0};
+  explicit Barrier(int n_) : n(n_) {}
+  void wait()
+  {
+    int p = phase.load(std::memory_order_acquire);
+    if (arrived.fetch_add(1, std::memory_order_acq_rel) + 1 == n) {
+      arrived.store(0, std::memory_order_relaxed);
+      phase.store(p + 1, std::memory_order_release);
+    } else {
+      while (phase.load(std::memory_order_acquire) == p) std::this_thread::yield();
+    }
+  }
+};
+
+void worker(int t, long ops, long sync, uint64_t seed, const std::vector<TimeStamp *> *shared, std::atomic<int> *ready,
+            std::atomic<bool> *go, Barrier *barrier, std::vector<Ev> *log)
 {
   Rng rng(seed + 7919u * (unsigned)t);
   TimeStamp *slot[SLOTS] = {nullptr, nullptr, nullptr, nullptr};
@@ -69,6 +90,7 @@ void worker(int t, long ops, uint64_t seed, const std::vector<TimeStamp *> *shar
   while (!go->load(std::memory_order_acquire)) {}
   unsigned seq = 0;
   for (long k = 0; k < ops; ++k, ++seq) {
+    if (sync > 0 && k > 0 && k % sync == 0) barrier->wait();
     int i = (int)rng.below(SLOTS);
     unsigned x = rng.below(100);
     if (!slot[i]) {
@@ -162,6 +184,7 @@ struct World
     long ops = (long)arg["ops"].num();
     uint64_t seed = (uint64_t)arg["seed"].num();
     int nshared = (int)arg["shared"].num();
+    long sync = arg.has("sync") ? (long)arg["sync"].num() : 0;
     std::string out = arg["out"].str();
 
     std::vector<std::vector<Ev>> logs((size_t)T + 1);
@@ -174,7 +197,8 @@ struct World
     std::atomic<int> ready(0);
     std::atomic<bool> go(false);
     std::vector<std::thread> th;
-    for (int t = 1; t <= T; ++t) th.emplace_back(worker, t, ops, seed, &shared, &ready, &go, &logs[(size_t)t]);
+    Barrier barrier(T);
+    for (int t = 1; t <= T; ++t) th.emplace_back(worker, t, ops, sync, seed, &shared, &ready, &go, &barrier, &logs[(size_t)t]);
     while (ready.load() < T) std::this_thread::yield();
     go.store(true, std::memory_order_release);
     for (auto &x : th) x.join();
